@@ -93,6 +93,9 @@ type observedSync struct {
 
 const n = 3
 
+// quietPeriod: how long a sync's notification stream is watched for an event too many once the expected ones have arrived
+var quietPeriod = 120 * time.Millisecond
+
 func num(ch *chain.Chain, c cid.Cid) int {
 	if c == cid.Undef {
 		return 0
@@ -231,7 +234,7 @@ func replay(b *behaviour, e *env, variant int) (key, detail string, at int, obs 
 		// announce-triggered sync reports through the event only.
 		expectEvents := len(want.Events)
 		deadline := time.After(6 * time.Second)
-		quiet := 120 * time.Millisecond
+		quiet := quietPeriod
 	collect:
 		for {
 			var to <-chan time.Time
@@ -351,11 +354,13 @@ func Run(args []string) *rep.Report {
 	variants := fs.Int("variants", 2, "concrete variants per behaviour with a body-class fault")
 	allPrefixes := fs.Bool("all-digests", false, "run body-class behaviours with every multihash function / digest length")
 	seed := fs.Int("seed", 1, "seed for variant choice")
+	quietMs := fs.Int("quiet-ms", 120, "how long to watch for a notification too many after each sync")
 	fs.Parse(args)
 	if *shard == "" {
 		return rep.RunSharded("c04", args, *procs)
 	}
 	si, sn := rep.ParseShard(*shard)
+	quietPeriod = time.Duration(*quietMs) * time.Millisecond
 	r := rep.New()
 	envs := map[string]*env{}
 	getEnv := func(pfx int, mode string) (*env, error) {
